@@ -533,7 +533,7 @@ impl Ctx {
     {
         let mut budget: i64 = 1500;
         let mut desc = None;
-        let mut try_tape = |cand: &[u8], budget: &mut i64| -> Option<(String, Option<String>)> {
+        let try_tape = |cand: &[u8], budget: &mut i64| -> Option<(String, Option<String>)> {
             if *budget <= 0 {
                 return None;
             }
